@@ -1026,3 +1026,595 @@ PROPS["C03"] = Spec(
     explanation="Theorems: the spacing rule, keyword lower-casing, EofNewline and multi-line string re-indentation are fixpoints of themselves. Idempotence of the whole formatter additionally needs the wrapper's plan to be a function of the layout-free view, which is decided by the oracle fmt(fmt(x)) = fmt(x) on the real formatter.",
     assumptions=["H-W2, H-W4 (false in the F6 class), H-W5"],
 )
+
+
+# ------------------------------------------------------------------ C05 and C11
+
+def nonblank_index(text: str, char_offset: int) -> int:
+    """number of non-blank characters before char_offset"""
+    return sum(1 for ch in text[:char_offset] if not (ord(ch) <= 0x20 or ch == "　"))
+
+
+def find_by_nonblank_index(out: str, idx: int) -> int:
+    """char offset in out of the non-blank character number idx (0-based)"""
+    k = 0
+    for i, ch in enumerate(out):
+        if ord(ch) <= 0x20 or ch == "　":
+            continue
+        if k == idx:
+            return i
+        k += 1
+    return -1
+
+
+def run_c05(ctx):
+    rng = ctx.rng
+    cases = []
+    for _ in range(ctx.n(600, 12000)):
+        p = gen.grammar_program(rng)
+        text = p.text()
+        marks = p.marks
+        cfg = gen.random_cfg(rng)
+        # relayout: marks are positions in the ORIGINAL text; translate through non-blank indices
+        idx = [(nonblank_index(text, off), depth, kind) for off, depth, kind in marks]
+        t2 = text
+        if rng.random() < 0.6:
+            r = gen.relayout(text, rng)
+            if r is not None:
+                t2 = r
+        cases.append(ctx.case("grammar", t2, cfg, meta={"marks": idx}))
+
+    def oracle(r):
+        c = r.case
+        try:
+            out = r.out.decode("utf-8")
+        except UnicodeDecodeError:
+            return
+        tabs, tw = c.cfg[3], c.cfg[4]
+        unit = "\t" if tabs else " " * tw
+        ctx.count("programs_checked")
+        for idx, depth, kind in c.meta["marks"]:
+            pos = find_by_nonblank_index(out, idx)
+            if pos < 0:
+                ctx.fail("statement_lost", c, "marked token (non-blank index %d) not found in the output" % idx)
+                return
+            ls = out.rfind("\n", 0, pos) + 1
+            lead = out[ls:pos]
+            ctx.count("marks_checked")
+            if lead.strip(" \t") != "":
+                ctx.fail("statement_not_on_own_line", c, "%s at depth %d does not start its line: %r" % (kind, depth, out[ls:pos + 15]), observed=r.out.hex()[:3000])
+                return
+            if lead != unit * depth:
+                ctx.fail("statement_wrong_indentation", c, "%s at depth %d is indented by %r, expected %d units of %r: %r" % (kind, depth, lead, depth, unit, out[ls:pos + 15]), observed=r.out.hex()[:3000])
+                return
+
+    ctx.run_stream(cases, units=["levels", "linescover", "eofline", "canon"], oracle=oracle)
+    ctx.hypotheses["grammar assigns level d+1 inside a block opened at level d; one logical line per statement"] = "generator-marked statement heads checked against line starts and indentation of the real output"
+    ctx.hypotheses["H-W1: first token of a top-level line breaks at `level` indentations"] = "unit levels on every trace"
+
+
+def run_c11(ctx):
+    rng = ctx.rng
+    widths = [10, 16, 20, 25, 30, 40, 45, 60, 80, 100, 120, 160, 200]
+    triples = []
+    pool = wellformed_texts(ctx, ctx.n(200, 4000))
+    cases = []
+    groups = []
+    for text, kind, wrap in pool:
+        base = gen.random_cfg(rng)
+        ws = sorted(rng.sample(widths, ctx.n(3, 5)))
+        g = []
+        for w in ws:
+            c = ctx.case(kind, text, (w,) + tuple(base[1:]))
+            cases.append(c)
+            g.append((w, c))
+        groups.append(g)
+    res = ctx.run_stream(cases, mode="fmt")
+
+    def maxlen(out):
+        return max((len(l.rstrip(b"\r")) for l in out.split(b"\n")), default=0)
+
+    for g in groups:
+        outs = [(w, res[c.id].out, c) for w, c in g if res.get(c.id) is not None and res[c.id].out is not None]
+        for i in range(len(outs)):
+            for j in range(i + 1, len(outs)):
+                w1, o1, c1 = outs[i]
+                w2, o2, c2 = outs[j]
+                ctx.count("width_pairs")
+                if maxlen(o2) <= w1 and o1 != o2:
+                    ctx.fail("width_is_style_switch", c1, "result for wrap_column=%d fits within %d but formatting with %d gives a different result" % (w2, w1, w1),
+                             observed=o1.hex()[:2000], expected=o2.hex()[:2000])
+                if o2.count(b"\n") > o1.count(b"\n"):
+                    ctx.fail("wider_more_lines", c2, "wrap_column=%d gives %d lines, wrap_column=%d gives %d" % (w2, o2.count(b"\n"), w1, o1.count(b"\n")),
+                             observed=o2.hex()[:2000], expected=o1.hex()[:2000], narrow_overflows=bool(maxlen(o1) > w1), wide_overflows=bool(maxlen(o2) > w2))
+                if maxlen(o1) <= w1 and maxlen(o2) > w2:
+                    ctx.fail("fits_not_monotone", c2, "every line fits at wrap_column=%d but not at %d" % (w1, w2), observed=o2.hex()[:2000])
+    ctx.hypotheses["the search returns (an equivalent of) a minimiser over a width-independent candidate set"] = "width pairs on the real formatter (the theorems are supporting lemmas only)"
+
+
+PROPS["C05"] = Spec(
+    coq_targets=["theories/Properties/C05.v"], module="Properties.C05",
+    theorems=["C05_level_rendering", "C05_level_units"],
+    run=run_c05,
+    rule="grammar-generated programs (routines, declaration sections, compound/if/else/while/for/with/repeat/try/case statements, nested to depth 4, arbitrary expressions) for which the generator records the first token and nesting depth of every statement, member and block closer; 60% re-layouted; x random configurations incl. begin_style and narrow widths",
+    explanation="Theorem: a line-start token with `level` indentations is rendered as exactly level units. The plan hypothesis (first token of each top-level line starts a line at `level`) is evaluated on every real trace; the oracle checks every generator-marked statement head / member / closer against line start and indentation of the real output.",
+    assumptions=["the grammar's level assignment and line splitting are not modelled (oracle); H-W1 monitored"],
+)
+PROPS["C11"] = Spec(
+    coq_targets=["theories/Properties/C11.v"], module="Properties.C11",
+    theorems=["C11_penalty_antitone", "C11_penalty_eq_when_fits", "C11_fits_monotone", "C11_ideal_search_width_stable", "C11_width_sites"],
+    run=run_c11,
+    rule="well-formed seeds and grammar programs x 3 (quick) / 5 (thorough) widths from {10..200} with the other settings fixed per input; all pairs W1 < W2 compared",
+    explanation="Supporting theorems only: the penalty is antitone in the limit, equal when everything fits, fitting is monotone, and an ideal minimiser over a width-independent candidate set would be width-stable; wrap_column is used only at the modelled sites (generated inventory). The real search is a heuristic and is not modelled: the three clauses of the property are decided by the width-pair oracle on the real formatter.",
+    assumptions=["main clause decided by the oracle"],
+)
+
+
+# ------------------------------------------------------------------ C16 - C19 (the real binary)
+
+from . import cli  # noqa: E402
+import subprocess as _sp  # noqa: E402
+
+MESSY = ["begin\n  X  :=   1 ;\n\n\n\n  Foo (  a,b ) ;\nend.\n", "procedure   P ;\nbegin\nend;\n", "x:=1;", "begin end.\n", "",
+         "unit A;\ninterface\nuses  B ,  C;\nimplementation\nend.\n", "// é comment   \nbegin  end.", "const S = 'äöü日本';\n"]
+
+
+def cli_contents(ctx, n):
+    rng = ctx.rng
+    out = list(MESSY)
+    S = gen.seeds()
+    for _ in range(n):
+        t = rng.choice(S)["text"]
+        c = rng.random()
+        if c < 0.3:
+            r = gen.relayout(t, rng)
+            t = r if r else t
+        elif c < 0.45:
+            t = t.replace("\n", "\n\n\n") + "   \n\n\n"   # result shorter than the input
+        elif c < 0.6:
+            t = " ".join(t.split())                          # result usually longer
+        out.append(t)
+    return out
+
+
+ENCODINGS = [  # (name for -C encoding, python codec, bom bytes, model enc name or None)
+    ("utf-8", "utf-8", b"", "utf8"), ("utf-8", "utf-8", b"\xef\xbb\xbf", "utf8"),
+    ("utf-8", "utf-16-le", b"\xff\xfe", "utf8"), ("utf-8", "utf-16-be", b"\xfe\xff", "utf8"),
+    ("windows-1252", "utf-16-le", b"\xff\xfe", None), ("utf-16le", "utf-16-le", b"", "utf16le"), ("utf-16be", "utf-16-be", b"", "utf16be"),
+    ("windows-1252", "cp1252", b"", None), ("shift_jis", "shift_jis", b"", None), ("gbk", "gbk", b"", None),
+    ("big5", "big5", b"", None), ("euc-kr", "euc_kr", b"", None), ("windows-1251", "cp1251", b"", None),
+]
+ENC_SAMPLES = {"cp1252": "é ü ß", "shift_jis": "カタカナ 漢字", "gbk": "汉字 测试", "big5": "漢字 測試", "euc_kr": "한글 시험", "cp1251": "Привет мир"}
+
+
+def model_fileio(rows):
+    """rows: (enc model name, content bytes, path bytes, fmt_in utf8 bytes, fmt_out utf8 bytes) -> list of dicts"""
+    f = os.path.join(build.CACHE, "run", "fio_%d.txt" % os.getpid())
+    os.makedirs(os.path.dirname(f), exist_ok=True)
+    hx = lambda b: b.hex() if b else "-"
+    with open(f, "w") as o:
+        for e, c, p, fi, fo in rows:
+            o.write("%s %s %s %s %s\n" % (e, hx(c), hx(p), hx(fi), hx(fo)))
+    q = _sp.run([build.DRIVER, "fileio", f], stdout=_sp.PIPE, timeout=1200)
+    os.remove(f)
+    res = {}
+    for line in q.stdout.decode().splitlines():
+        p = line.split()
+        if p and p[0] == "FIO":
+            d = dict(kv.split("=", 1) for kv in p[2:])
+            res[int(p[1])] = d
+    return res
+
+
+def unhex(h):
+    return b"" if h == "-" else bytes.fromhex(h)
+
+
+def run_file_layer(ctx, prop):
+    """shared by C16 and C17: every content x encoding through files / stdin->stdout / check / stdout
+    modes of the real binary, compared with each other, with the Python codec oracle, and with the
+    file-layer model (UTF encodings)."""
+    rng = ctx.rng
+    wd = cli.workdir(prop)
+    ctx.workdirs.append(wd)
+    ecfg = cli.empty_cfg(wd)
+    contents = cli_contents(ctx, ctx.n(40, 400))
+    jobs = []
+    k = 0
+    for text in contents:
+        encs = ENCODINGS if (prop == "C17" or k % 4 == 0) else ENCODINGS[:4]
+        for (ename, codec, bom, mname) in (encs if prop == "C17" else rng.sample(encs, min(len(encs), 3))):
+            t = text
+            if codec in ENC_SAMPLES and rng.random() < 0.7:
+                t = t + "\n// " + ENC_SAMPLES[codec] + "\nconst S = '" + ENC_SAMPLES[codec] + "';\n"
+            try:
+                body = t.encode(codec)
+            except UnicodeEncodeError:
+                t = text.encode("ascii", "ignore").decode()
+                body = t.encode(codec)
+            jobs.append({"i": k, "text": t, "bytes": bom + body, "ename": ename, "codec": codec, "bom": bom, "mname": mname, "malformed": False})
+            k += 1
+    # malformed inputs
+    BAD = {"utf-8": [b"begin \xff\xfe\xfd end.", b"\xc3(", b"\xed\xa0\x80", b"\xf4\x90\x80\x80", b"\xc0\xaf", b"abc\xe3\x80"],
+           "utf-16-le": [b"a\x00b", b"\x00\xd8a\x00", b"a\x00\x00\xdc", b"\x00\xd8"],
+           "utf-16-be": [b"\x00a\x00", b"\xd8\x00\x00a", b"\x00a\xdc\x00"],
+           "shift_jis": [b"\x81", b"abc\x81", b"\x81\x20"]}
+    for ename, codec, bom, mname in [("utf-8", "utf-8", b"", "utf8"), ("utf-8", "utf-8", b"\xef\xbb\xbf", "utf8"), ("utf-8", "utf-16-le", b"\xff\xfe", "utf8"),
+                                     ("utf-16be", "utf-16-be", b"", "utf16be"), ("utf-8", "utf-16-be", b"\xfe\xff", "utf8"), ("shift_jis", "shift_jis", b"", None)]:
+        for bad in BAD[codec]:
+            jobs.append({"i": k, "text": None, "bytes": bom + bad, "ename": ename, "codec": codec, "bom": bom, "mname": mname, "malformed": True})
+            k += 1
+
+    def one(j):
+        d = os.path.join(wd, "j%d" % j["i"])
+        os.makedirs(d)
+        f = os.path.join(d, "t.pas")
+        args = ["--config-file", ecfg, "-C", "encoding=" + j["ename"]]
+        r = {}
+        r["stdin"] = cli.run(args, d, stdin=j["bytes"])
+        open(f, "wb").write(j["bytes"])
+        r["check0"] = cli.run(args + ["--mode", "check", f], d)
+        r["after_check"] = open(f, "rb").read()
+        r["stdout"] = cli.run(args + ["--mode", "stdout", f], d)
+        r["after_stdout"] = open(f, "rb").read()
+        r["files"] = cli.run(args + [f], d)
+        r["after_files"] = open(f, "rb").read()
+        r["check1"] = cli.run(args + ["--mode", "check", f], d)
+        r["check_stdin1"] = cli.run(args + ["--mode", "check"], d, stdin=r["after_files"])
+        shutil.rmtree(d, ignore_errors=True)
+        return r
+
+    import shutil
+    results = cli.pmap(one, jobs)
+    # model predictions for the UTF encodings
+    rows, idx = [], []
+    for j, r in zip(jobs, results):
+        if j["mname"] is None:
+            continue
+        fi = fo = b""
+        if not j["malformed"]:
+            fi = j["text"].encode("utf-8")
+            # what the formatter makes of the decoded text: taken from the stdout-mode run (path:\n<utf8>\n)
+            so = r["stdout"][1]
+            hdr = so.find(b":\n")
+            fo = so[hdr + 2:-1] if hdr >= 0 and so.endswith(b"\n") else fi
+        rows.append((j["mname"], j["bytes"], os.path.join(wd, "j%d" % j["i"], "t.pas").encode(), fi, fo))
+        idx.append(j["i"])
+    pred = model_fileio(rows)
+    pred_by_job = {ji: pred.get(n) for n, ji in enumerate(idx)}
+    n_model_ok = n_model_bad = 0
+    for j, r in zip(jobs, results):
+        case = ctx.case("cli-" + j["codec"] + ("-bom" if j["bom"] else ""), j["bytes"], gen.DEFAULT_CFG, meta={"encoding": j["ename"]})
+        ctx.note_case(case)
+        if len(ctx.samples) < 6:
+            ctx.samples.append({"encoding": j["ename"], "bom": j["bom"].hex(), "bytes": j["bytes"][:80].hex(), "files_rc": r["files"][0]})
+        ctx.count("cli_cases")
+        b = j["bytes"]
+        rc_stdin, out_stdin, _ = r["stdin"]
+        if r["after_check"] != b or r["after_stdout"] != b:
+            ctx.fail("readonly_mode_wrote", case, "check or stdout mode modified the file")
+        if j["malformed"]:
+            ctx.count("malformed_cases")
+            if r["after_files"] != b:
+                ctx.fail("malformed_rewritten", case, "input malformed in %s was rewritten" % j["codec"], observed=r["after_files"].hex()[:400])
+            if r["files"][0] == 0 or rc_stdin == 0 or r["check0"][0] == 0:
+                ctx.fail("malformed_exit_zero", case, "malformed input but exit status files=%d stdin=%d check=%d" % (r["files"][0], rc_stdin, r["check0"][0]))
+        else:
+            if rc_stdin != 0 or r["files"][0] != 0:
+                ctx.fail("cli_error", case, "unexpected failure: stdin rc=%d files rc=%d stderr=%r" % (rc_stdin, r["files"][0], r["files"][2][-300:]))
+                continue
+            noncanon = False
+            if r["after_files"] != out_stdin:
+                try:
+                    noncanon = (b[len(j["bom"]):].decode(j["codec"]).encode(j["codec"]) != b[len(j["bom"]):])
+                except Exception:
+                    noncanon = False
+                ctx.fail("file_vs_stdout", case, "files mode left %d bytes, stdin->stdout printed %d bytes (first difference at %d)" % (
+                    len(r["after_files"]), len(out_stdin), next((i for i in range(min(len(out_stdin), len(r["after_files"]))) if out_stdin[i] != r["after_files"][i]), -1)),
+                    observed=r["after_files"].hex()[:800], expected=out_stdin.hex()[:800], noncanonical=noncanon)
+            # the oracle of C17: bytes written = BOM + encode(format(decode(body)))
+            so = r["stdout"][1]
+            hdr = so.find(b":\n")
+            if hdr >= 0 and so.endswith(b"\n"):
+                formatted = so[hdr + 2:-1].decode("utf-8", "replace")
+                try:
+                    expect = j["bom"] + formatted.encode(j["codec"])
+                    ctx.count("bytes_written_formula_checked")
+                    if r["after_files"] != expect:
+                        ctx.fail("bytes_written_formula", case, "file bytes differ from BOM + encode(format(decode(input))) in %s" % j["codec"],
+                                 observed=r["after_files"].hex()[:800], expected=expect.hex()[:800])
+                    if not r["after_files"].startswith(j["bom"]) or (not j["bom"] and r["after_files"][:3] == b"\xef\xbb\xbf" and not b.startswith(b"\xef\xbb\xbf")):
+                        ctx.fail("bom_not_preserved", case, "BOM changed")
+                except UnicodeEncodeError:
+                    pass
+            # check mode: exit zero exactly when the content equals the result
+            already = (b == out_stdin) or (j["text"] is not None and hdr >= 0 and so[hdr + 2:-1] == j["text"].encode("utf-8"))
+            if (r["check0"][0] == 0) != already:
+                ctx.fail("check_disagrees", case, "check mode exit %d but content %s its formatting" % (r["check0"][0], "equals" if already else "differs from"))
+            if r["check1"][0] != 0 or r["check_stdin1"][0] != 0:
+                ctx.fail("check_rejects_own_output", case, "check mode rejects the file pasfmt has just written (rc file=%d stdin=%d)" % (r["check1"][0], r["check_stdin1"][0]))
+        # the file-layer model
+        p = pred_by_job.get(j["i"])
+        if p is not None:
+            ok = True
+            if unhex(p["files"]) != r["after_files"] or (p["files_err"] == "1") != (r["files"][0] != 0):
+                ok = False
+            if not j["malformed"] and (unhex(p["stdin"]) != out_stdin or (p["stdin_err"] == "1") != (rc_stdin != 0)):
+                ok = False
+            if (p["check_err"] == "1") != (r["check0"][0] != 0) or (p["stdout_err"] == "1") != (r["stdout"][0] != 0):
+                ok = False
+            if not j["malformed"] and unhex(p["stdout"]) != r["stdout"][1]:
+                ok = False
+            if ok:
+                n_model_ok += 1
+            else:
+                n_model_bad += 1
+                ctx.corr_diffs.append(("cli%d" % j["i"], "fileio", "model prediction differs from the binary: enc=%s bytes=%s model=%r" % (j["ename"], b.hex()[:200], {k: v[:60] for k, v in p.items()})))
+    ctx.corr_counts["fileio"] = [n_model_ok, n_model_bad]
+    ctx.traces_validated += n_model_ok
+    return wd, ecfg
+
+
+def run_c16(ctx):
+    wd, ecfg = run_file_layer(ctx, "C16")
+    rng = ctx.rng
+    # path forms: file, directory, glob, --files-from: every form formats the same set of files identically
+    d = os.path.join(wd, "forms")
+    texts = cli_contents(ctx, 6)[:12]
+
+    def populate(root):
+        os.makedirs(os.path.join(root, "sub"), exist_ok=True)
+        paths = []
+        for i, t in enumerate(texts):
+            p = os.path.join(root, "sub" if i % 3 == 0 else "", "f%d.%s" % (i, ["pas", "dpr", "dpk"][i % 3]))
+            open(p, "wb").write(t.encode("utf-8"))
+            paths.append(p)
+        open(os.path.join(root, "ignored.txt"), "wb").write(b"begin  end.")
+        return paths
+
+    outs = {}
+    for form in ("file", "dir", "glob", "files-from"):
+        root = os.path.join(d, form)
+        paths = populate(root)
+        if form == "file":
+            args = paths
+        elif form == "dir":
+            args = [root]
+        elif form == "glob":
+            args = [os.path.join(root, "*.pas"), os.path.join(root, "*.dp?"), os.path.join(root, "sub", "*")]
+        else:
+            lst = os.path.join(root, "list.txt")
+            open(lst, "w").write("\n".join(paths) + "\n")
+            args = ["--files-from", lst]
+        rc, so, se = cli.run(["--config-file", ecfg] + args, root)
+        outs[form] = (rc, [open(p, "rb").read() for p in paths], open(os.path.join(root, "ignored.txt"), "rb").read())
+        ctx.count("path_forms")
+    expect = [cli.run(["--config-file", ecfg], wd, stdin=t.encode("utf-8"))[1] for t in texts]
+    for form, (rc, got, ign) in outs.items():
+        if rc != 0 or got != expect or ign != b"begin  end.":
+            ctx.fail("path_form_differs", None, "path form %s: rc=%d, %d of %d files differ from stdin formatting, ignored file touched=%s" % (
+                form, rc, sum(1 for a, b in zip(got, expect) if a != b), len(expect), ign != b"begin  end."))
+    # files + stdin is rejected; stdin defaults to stdout mode
+    rc, so, se = cli.run(["--config-file", ecfg, "--mode", "files"], wd, stdin=b"begin end.")
+    if rc == 0:
+        ctx.fail("files_mode_with_stdin_accepted", None, "--mode files reading stdin exited 0")
+    # the operation sequence of each mode on the file (strace) against the modelled sequence
+    st = os.path.join(wd, "strace")
+    os.makedirs(st)
+    f = os.path.join(st, "t.pas")
+    seqs = {}
+    for mode, args in (("files", []), ("check", ["--mode", "check"]), ("stdout", ["--mode", "stdout"])):
+        open(f, "wb").write(b"begin\n\n\n  X  :=  1 ;\nend.\n")
+        ops = cli.strace_ops(["--config-file", ecfg] + args + [f], st, f)
+        seqs[mode] = ops
+    if seqs.get("files") is not None:
+        kinds = [o[0] for o in seqs["files"]]
+        shape_ok = (kinds[:1] == ["open"] and "RDWR" in seqs["files"][0][1] and "TRUNC" not in seqs["files"][0][1]
+                    and "lseek" in kinds and "write" in kinds and "ftruncate" in kinds
+                    and kinds.index("lseek") < kinds.index("write") < kinds.index("ftruncate"))
+        ctx.corr_counts["syscall_sequence_files"] = [1, 0] if shape_ok else [0, 1]
+        if not shape_ok:
+            ctx.corr_diffs.append(("strace", "fileio-ops", "files mode operation sequence %r is not open(RDWR) read* lseek(0) write* ftruncate" % (seqs["files"],)))
+        for mode in ("check", "stdout"):
+            ks = [o[0] for o in seqs[mode]]
+            ro_ok = ks[:1] == ["open"] and "RDONLY" in seqs[mode][0][1] and not any(k in ("write", "ftruncate", "truncate", "rename", "unlink") for k in ks)
+            ctx.corr_counts["syscall_sequence_" + mode] = [1, 0] if ro_ok else [0, 1]
+            if not ro_ok:
+                ctx.fail("readonly_mode_wrote", None, "%s mode touched the file: %r" % (mode, seqs[mode]))
+        ctx.samples.append({"strace_files_mode": [list(o) for o in seqs["files"]][:12]})
+    ctx.hypotheses["POSIX file semantics; encoding_rs codecs for legacy code pages"] = "binary on temporary files; syscall trace of each mode compared with the modelled operation sequence"
+
+
+def run_c17(ctx):
+    run_file_layer(ctx, "C17")
+    ctx.hypotheses["legacy code pages: encoding_rs = Python codec on the sampled characters"] = "byte-level differential; UTF-8/16 additionally against the Coq codec"
+
+
+def run_c18(ctx):
+    rng = ctx.rng
+    import shutil
+    wd = cli.workdir("C18")
+    ctx.workdirs.append(wd)
+    ecfg = cli.empty_cfg(wd)
+    n_dirs = ctx.n(6, 60)
+    for di in range(n_dirs):
+        texts = cli_contents(ctx, rng.randrange(8, 40))
+        big = "\n".join(rng.choice(gen.seeds())["text"] for _ in range(rng.randrange(50, 400)))
+        texts.append(big)
+        specs = []
+        for i, t in enumerate(texts):
+            enc, codec, bom, _ = rng.choice(ENCODINGS[:4])
+            try:
+                data = bom + t.encode(codec)
+            except UnicodeEncodeError:
+                data = t.encode("utf-8")
+            specs.append(("f%03d.pas" % i, data))
+        # failing files: undecodable content, a directory with a .pas name (open for write fails), a missing path
+        specs.append(("bad_utf8.pas", b"begin \xff\xfe end."))
+        solo = {}
+        sd = os.path.join(wd, "solo%d" % di)
+        os.makedirs(sd)
+        for name, data in specs:
+            p = os.path.join(sd, name)
+            open(p, "wb").write(data)
+            rc, so, se = cli.run(["--config-file", ecfg, p], sd)
+            solo[name] = (open(p, "rb").read(), rc)
+        for threads in ctx.n([1, 3, 16], [1, 2, 3, 4, 8, 16]):
+            for rep in range(ctx.n(1, 3)):
+                bd = os.path.join(wd, "batch%d_%d_%d" % (di, threads, rep))
+                os.makedirs(os.path.join(bd, "isdir.pas"))
+                for name, data in specs:
+                    open(os.path.join(bd, name), "wb").write(data)
+                args = ["--config-file", ecfg, bd, os.path.join(bd, "missing.pas")]
+                rc, so, se = cli.run(args, bd, env={"RAYON_NUM_THREADS": str(threads)})
+                ctx.count("batch_runs")
+                case = ctx.case("batch", ("dir %d threads %d" % (di, threads)), gen.DEFAULT_CFG)
+                ctx.note_case(case)
+                bad = [name for name, data in specs if open(os.path.join(bd, name), "rb").read() != solo[name][0]]
+                if bad:
+                    ctx.fail("batch_differs_from_solo", case, "threads=%d: %d files differ from their solo result: %s" % (threads, len(bad), bad[:5]))
+                if rc == 0:
+                    ctx.fail("batch_exit_zero_with_failures", case, "a batch with an undecodable and a missing file exited 0")
+                shutil.rmtree(bd, ignore_errors=True)
+        # a batch without failing files exits zero
+        gd = os.path.join(wd, "good%d" % di)
+        os.makedirs(gd)
+        for name, data in specs[:-1]:
+            open(os.path.join(gd, name), "wb").write(data)
+        rc, so, se = cli.run(["--config-file", ecfg, gd], gd, env={"RAYON_NUM_THREADS": "8"})
+        if rc != 0:
+            ctx.fail("batch_exit_nonzero_without_failures", None, "rc=%d stderr=%r" % (rc, se[-300:]))
+        shutil.rmtree(gd, ignore_errors=True)
+        shutil.rmtree(sd, ignore_errors=True)
+        if len(ctx.samples) < 4:
+            ctx.samples.append({"files": len(specs), "largest_bytes": max(len(d) for _, d in specs), "threads": "1,3,16"})
+    ctx.hypotheses["real rayon interleavings"] = "sampled (thread counts x repetitions), not enumerated; the model theorem covers every interleaving of the modelled steps"
+    ctx.hypotheses["process-wide state = {AtomicPtr CPU dispatch, AtomicBool exit flag}"] = "generated inventory proved equal to the modelled set (inventory_shared_state)"
+
+
+def run_c19(ctx):
+    rng = ctx.rng
+    import shutil
+    wd = cli.workdir("C19")
+    ctx.workdirs.append(wd)
+    src = b"begin\n  if A then begin\n    Foo(aaaaaaaaaaaa, bbbbbbbbbbbbb, cccccccccccc, dddddddddddd);\n  end;\nend.\n"
+    KEYS = {"wrap_column": [20, 40, 80, 120], "begin_style": ['"auto"', '"always_wrap"'], "format_multiline_strings": ["true", "false"],
+            "use_tabs": ["true", "false"], "tab_width": [1, 2, 4, 8], "continuation_indents": [0, 1, 2, 3], "line_ending": ['"lf"', '"crlf"']}
+
+    def fmt_with(assign, cwd, extra=None):
+        """reference: everything through -C with an explicit empty config file"""
+        args = ["--config-file", cli.empty_cfg(wd)]
+        for k, v in assign.items():
+            args += ["-C", "%s=%s" % (k, str(v).strip('"'))]
+        return cli.run(args + (extra or []), cwd, stdin=src)
+
+    n = ctx.n(40, 600)
+    for it in range(n):
+        depth = rng.randrange(1, 6)
+        root = os.path.join(wd, "t%d" % it)
+        comps = ["d%d" % i for i in range(depth)]
+        cwd = os.path.join(root, *comps)
+        os.makedirs(cwd)
+        assign = {k: rng.choice(v) for k, v in KEYS.items() if rng.random() < 0.7}
+        keys = list(assign)
+        rng.shuffle(keys)
+        cut = rng.randrange(0, len(keys) + 1)
+        in_file, on_cli = keys[:cut], keys[cut:]
+        # the nearest file carries `in_file`; a farther file carries decoys that must be ignored
+        level = rng.randrange(0, depth + 1)
+        near = os.path.join(root, *comps[:level])
+        with open(os.path.join(near, "pasfmt.toml"), "w") as f:
+            for k in in_file:
+                f.write("%s = %s\n" % (k, assign[k]))
+        if level > 0 and rng.random() < 0.6:
+            far = os.path.join(root, *comps[:rng.randrange(0, level)])
+            with open(os.path.join(far, "pasfmt.toml"), "w") as f:
+                f.write("wrap_column = 33\ntab_width = 7\n")
+        args = []
+        for k in on_cli:
+            args += ["-C", "%s=%s" % (k, str(assign[k]).strip('"'))]
+        # keys in the file overridden on the command line
+        for k in in_file:
+            if rng.random() < 0.2:
+                other = rng.choice(KEYS[k])
+                args += ["-C", "%s=%s" % (k, str(other).strip('"'))]
+                assign[k] = other
+        use_option = rng.random() < 0.3
+        if use_option:
+            args = ["--config-file", os.path.join(near, "pasfmt.toml")] + args
+            run_cwd = wd
+        else:
+            run_cwd = cwd
+        rc, out, err = cli.run(args, run_cwd, stdin=src)
+        rc2, ref, err2 = fmt_with(assign, wd)
+        case = ctx.case("cfg", "depth %d level %d file=%s cli=%s option=%s" % (depth, level, in_file, on_cli, use_option), gen.DEFAULT_CFG)
+        ctx.note_case(case)
+        ctx.count("precedence_cases")
+        if len(ctx.samples) < 5:
+            ctx.samples.append({"depth": depth, "file_level": level, "in_file": in_file, "on_cli": on_cli, "config_file_option": use_option})
+        if rc != 0 or rc2 != 0 or out != ref:
+            ctx.fail("config_precedence", case, "effective configuration %r given as file(level %d)=%s + -C %s (%s) formats differently from the same values given by -C only (rc=%d/%d) stderr=%r" % (
+                assign, level, in_file, on_cli, "--config-file" if use_option else "ancestor search", rc, rc2, err[-200:]),
+                observed=out.hex()[:600], expected=ref.hex()[:600])
+        shutil.rmtree(root, ignore_errors=True)
+    # rejection: unknown keys, ill-typed values, missing --config-file, a directory as --config-file; no file is touched
+    rd = os.path.join(wd, "reject")
+    os.makedirs(rd)
+    victim = os.path.join(rd, "v.pas")
+    bad_cases = [(["-C", "no_such_key=1"], None), (["-C", "wrap_column=abc"], None), (["-C", "tab_width=300"], None), (["-C", "tab_width=-1"], None),
+                 (["-C", "begin_style=sometimes"], None), (["-C", "use_tabs=maybe"], None), (["-C", "line_ending=cr"], None), (["-C", "encoding=no-such-enc"], None),
+                 (["--config-file", os.path.join(rd, "missing.toml")], None), (["--config-file", rd], None),
+                 ([], "unknown_key = 1\n"), ([], "wrap_column = \"wide\"\n"), ([], "[section]\nwrap_column = 1\n"), ([], "wrap_column = 1\nwrap_column = 2\n")]
+    for args, filetext in bad_cases:
+        open(victim, "wb").write(b"begin  end.")
+        cfgp = os.path.join(rd, "pasfmt.toml")
+        if filetext is not None:
+            open(cfgp, "w").write(filetext)
+        elif os.path.exists(cfgp):
+            os.remove(cfgp)
+        rc, so, se = cli.run(args + [victim], rd)
+        ctx.count("rejection_cases")
+        case = ctx.case("reject", "args=%r file=%r" % (args, filetext), gen.DEFAULT_CFG)
+        ctx.note_case(case)
+        if rc == 0:
+            ctx.fail("invalid_config_accepted", case, "invalid configuration %r / %r exited 0" % (args, filetext))
+        if open(victim, "rb").read() != b"begin  end.":
+            ctx.fail("invalid_config_touched_file", case, "a file was modified although the configuration was rejected")
+    ctx.hypotheses["clap / toml / serde / config crate behaviour"] = "the binary run from nested working directories; options split arbitrarily between file, --config-file and -C"
+
+
+PROPS["C16"] = Spec(
+    coq_targets=["theories/Properties/C16.v"], module="Properties.C16",
+    theorems=["C16_write_then_truncate", "C16_files_mode_eq_stdout", "C16_files_mode_eq_stdout_utf", "C16_legacy_noncanonical_refuted", "C16_check_iff_fixed",
+              "C16_ro_modes_no_write", "C16_decode_error_no_write", "C16_encode_error_file_state"],
+    run=run_c16,
+    rule="file contents (already formatted, results shorter / longer / equal, empty, non-ASCII) x encodings/BOMs x modes {files, stdin->stdout, check, stdout} on the real binary; path forms file / directory / glob / --files-from; malformed inputs; syscall trace of each mode",
+    explanation="Theorems over the file-layer model (POSIX file operations, mode operation sequences): write-then-truncate leaves exactly the new bytes for every old length, files mode = stdin->stdout bytes (proviso proved for UTF-8/16, refuted for non-canonical legacy bytes, F8), check fails iff text differs from its formatting, read-only modes cannot write, decode/encode errors leave the file untouched. The model's predictions for files/stdin/check/stdout modes are compared with the real binary on every UTF case; the syscall sequence of each mode is compared with the modelled sequence.",
+    assumptions=["file system and codec contracts (encoding_rs) for legacy code pages"],
+)
+PROPS["C17"] = Spec(
+    coq_targets=["theories/Properties/C17.v"], module="Properties.C17",
+    theorems=["C17_utf8_decode_encode", "C17_utf8_encode_decode", "C17_utf16le_decode_encode", "C17_utf16be_decode_encode", "C17_utf16le_encode_decode",
+              "C17_utf16be_encode_decode", "C17_bom_decides_encoding", "C17_bom_preserved", "C17_bytes_written_spec", "C17_malformed_rejected", "C17_utf_roundtrip_identity"],
+    run=run_c17,
+    rule="texts (ASCII, Latin, Cyrillic, CJK, Hangul samples) x {UTF-8, UTF-8+BOM, UTF-16LE/BE via BOM (also with a conflicting configured encoding), UTF-16LE/BE configured, windows-1252, shift_jis, gbk, big5, euc-kr, windows-1251} x file and stdin paths; malformed inputs per encoding",
+    explanation="Theorems: UTF-8 and both hand-written UTF-16 codecs round-trip in both directions, the BOM decides and is preserved, bytes written = BOM ++ encode(format(decode body)), malformed input is rejected, unchanged text re-encodes to the original bytes. The model (UTF encodings) is compared with the binary byte for byte; legacy code pages are checked against the formula with Python codecs.",
+    assumptions=["legacy codecs are parameters of the model"],
+)
+PROPS["C18"] = Spec(
+    coq_targets=["theories/Properties/C18.v"], module="Properties.C18",
+    theorems=["C18_clear_makes_history_irrelevant", "C18_no_clear_refuted", "C18_batch_eq_solo", "C18_batch_exit_code", "C18_duplicates_refuted"],
+    run=run_c18,
+    rule="directories of 10-40 files of mixed sizes (incl. one of 50-400 concatenated seeds), encodings and BOMs, with an undecodable file, a directory named *.pas and a missing path; RAYON_NUM_THREADS in {1,3,16} (quick) / {1,2,3,4,8,16} x 3 repetitions (thorough); compared with one invocation per file",
+    explanation="Theorem over the batch model: for duplicate-free paths, any worker assignment and ANY interleaving of the read / write / set_len steps of distinct files, every file ends as in its solo run, unlisted files are untouched and the error flag is set iff some file failed; the buffer clear makes history irrelevant (and its absence is refuted); duplicate paths are refuted (F12, model level). Real schedules are sampled by varying the thread count; the process-wide state inventory is proved equal to the modelled set.",
+    assumptions=["rayon's real interleavings are sampled, not enumerated"],
+)
+PROPS["C19"] = Spec(
+    coq_targets=["theories/Properties/C19.v", "theories/Proofs/PipelineProofs.v"], module="Properties.C19",
+    theorems=["C19_find_config_nearest", "C19_find_config_probes", "C19_override_wins", "C19_file_over_defaults", "C19_defaults_last",
+              "C19_option_file_wins", "C19_missing_option_file_is_error"],
+    run=run_c19,
+    rule="working directories at depth 1-5, pasfmt.toml at a random ancestor level with a decoy farther up, a random subset of the 7 formatting options split arbitrarily between file and -C (with overriding duplicates), --config-file in 30%; compared with the same effective values given by -C only; 14 invalid configurations (unknown keys, ill-typed values, missing or directory --config-file, malformed toml)",
+    explanation="Thin model (the real work is in clap/serde/config): the ancestor search returns the deepest ancestor with pasfmt.toml in at most depth+1 probes; the last -C wins over the file, the file over the defaults; --config-file wins and must exist. The property is decided by the differential run of the real binary: equal effective configurations give byte-identical output however specified; invalid configurations exit non-zero before any file is touched.",
+    assumptions=["clap, toml, serde, config crates are parameters"],
+)
